@@ -320,7 +320,15 @@ func genRA(rng *lib.Rand) (string, []byte) {
 	case c < 12: // a length field that overruns the packet
 		msg = append(msg, byte(rng.Pick(1, 3, 24, 25, 31, 77)), byte(2+rng.Intn(200)), 0, 0, 0, 0, 0, 0)
 		class = "overrun"
-	case c < 15: // random mutation of one byte of the option area
+	case c < 15: // an option of length zero (RFC 4861 4.6: the advertisement must be discarded), at the end or in the middle
+		z := []byte{byte(rng.Pick(1, 2, 3, 5, 24, 25, 31, 14, 0)), 0, 0, 0, 0, 0, 0, 0}
+		if rng.Bool() {
+			msg = append(msg, z...)
+		} else {
+			msg = append(append(append([]byte{}, msg[:16]...), z...), msg[16:]...)
+		}
+		class = "zero-length"
+	case c < 18: // random mutation of one byte of the option area
 		if len(msg) > 16 {
 			msg[16+rng.Intn(len(msg)-16)] = rng.Byte()
 			class = "mutated"
@@ -412,5 +420,10 @@ func directedRAs() [][]byte {
 		mkRA(64, 0, 1800, 0, 0, optD(600, long...)),                                                                         // dnssl-long
 		mkRA(64, 0, 1800, 0, 0, opt(14, 1, []byte{1, 2, 3, 4, 5, 6}), opt(1, 1, mac), opt(253, 2, nil)),                   // unknown types skipped
 		mkRA(64, 0, 1800, 0, 0, opt(1, 1, mac), opt(1, 1, []byte{1, 2, 3, 4, 5, 6})),                                       // repeated SLLA
+		mkRA(64, 0, 1800, 0, 0, opt(1, 1, mac), []byte{31, 0, 0, 0, 0, 0, 0, 0}),                                            // zero-length option: rejected
+		mkRA(64, 0, 1800, 0, 0, optS(600, s1), opt(25, 2, []byte{0, 0, 0, 0, 0, 9})),                                       // malformed RDNSS after a good one (was: lifetime overwritten)
+		mkRA(64, 0, 1800, 0, 0, optS(600, s1), opt(25, 4, append([]byte{0, 0, 0, 0, 0, 9}, s2...))),                        // RDNSS of even length
+		mkRA(64, 0, 1800, 0, 0, optR(48, 0x08, 600, 2, 0x20, 0x01, 0x0d, 0xb8, 0, 1), optR(56, 0x10, 700, 2, 0x20, 1)),      // reserved preference after a good route (was: fields overwritten)
+		mkRA(64, 0, 1800, 0, 0, opt(1, 1, mac), append([]byte{3, 4, 200, 0xc0}, make([]byte, 28)...)),                       // prefix length 200 (was: accepted with a nil prefix)
 	}
 }
